@@ -735,6 +735,8 @@ class CompositeEnvelopeContainer:
             Other composite envelope container
         """
         assert isinstance(other, CompositeEnvelopeContainer)
+        for state in other.states:
+            state.container = self
         self.states.extend(other.states)
         self.envelopes.extend(other.envelopes)
 
@@ -827,6 +829,8 @@ class CompositeEnvelope:
             CompositeEnvelope._instances[self.uid] = []
         CompositeEnvelope._instances[self.uid].append(self)
         self.update_composite_envelope_pointers()
+        # Product states of the merged containers moved to new positions
+        ce_container.update_all_indices()
 
     def __repr__(self) -> str:
         return (
